@@ -109,6 +109,8 @@ type VC struct {
 	readLog  map[string]bool
 	pureReads []string
 	hiddenTables map[string]bool
+	untracked map[string]bool      // heaps modified through paths that do not record keys
+	heapMods  map[string][]heapMod // keys (terms) at which tracked modifications happened
 	effCall  *ssa.CallCommon
 	effFrame *Frame
 	durParts map[string][2]string // time.Duration terms known as (seconds, nanosecond difference)
@@ -136,7 +138,7 @@ func newVC(w *World, fn *ssa.Function, c *Contract) *VC {
 	return &VC{w: w, fn: fn, contract: c, declared: map[string]bool{}, pureDone: map[*SpecFn]bool{},
 		heapSort: map[string]string{}, strDone: map[int]bool{}, strSrc: map[string]*strSource{}, strCat: map[string][2]Val{},
 		tableDone: map[string]bool{}, ordinals: map[string]int{}, trusted: map[string]bool{}, snapArrays: map[string][]string{},
-		nonNil: map[string]bool{}, ghostSorts: map[string]string{}, revealed: map[string]bool{}, ifacePtr: map[string]*PtrDesc{}, rtypeOf: map[string]Val{}, freshKeys: map[string]bool{}, dirty: map[string]bool{}, durParts: map[string][2]string{}, hiddenTables: map[string]bool{}}
+		nonNil: map[string]bool{}, ghostSorts: map[string]string{}, revealed: map[string]bool{}, ifacePtr: map[string]*PtrDesc{}, rtypeOf: map[string]Val{}, freshKeys: map[string]bool{}, dirty: map[string]bool{}, durParts: map[string][2]string{}, hiddenTables: map[string]bool{}, untracked: map[string]bool{}, heapMods: map[string][]heapMod{}}
 }
 
 type outsideSubset struct{ msg string }
@@ -268,9 +270,17 @@ func (vc *VC) heapTerm(st *State, name, sort string) string {
 }
 
 func (vc *VC) setHeap(st *State, name, sort, term string) {
+	vc.untracked[name] = true
+	vc.setHeapTracked(st, name, sort, term)
+}
+
+// setHeapTracked: the caller records the modified key in vc.heapMods.
+func (vc *VC) setHeapTracked(st *State, name, sort, term string) {
 	vc.heapSort[name] = sort
 	st.heap.m[name] = vc.define("h", sort, term)
 }
+
+type heapMod struct{ key, cond string }
 
 // leafLoc computes (heap name, heap sort, key terms) for one leaf of a value
 // of type d.T stored at location d.
@@ -337,6 +347,7 @@ func (vc *VC) storeDesc(st *State, d *PtrDesc, v Val) {
 	for k, ll := range vc.leafLocs(d) {
 		if !vc.freshKeys[ll.key] {
 			vc.dirty[ll.name] = true
+			vc.heapMods[ll.name] = append(vc.heapMods[ll.name], heapMod{key: ll.key})
 		}
 		h := vc.heapTerm(st, ll.name, ll.sort)
 		var nt string
@@ -345,7 +356,7 @@ func (vc *VC) storeDesc(st *State, d *PtrDesc, v Val) {
 		} else {
 			nt = sto(h, ll.key, v.L[k])
 		}
-		vc.setHeap(st, ll.name, ll.sort, nt)
+		vc.setHeapTracked(st, ll.name, ll.sort, nt)
 	}
 }
 
